@@ -41,6 +41,14 @@ type OpRec struct {
 	Ret   int
 	CallT int64 // virtual ns at release into the operation
 	RetT  int64 // virtual ns when the operation returned (task side, exact)
+
+	// Solo: from its call until it returned or first blocked durably, no other
+	// task executed a step and no other task was parked inside an operation
+	// when it started — its outcome must then match the sequential model.
+	Solo    bool
+	settled bool
+	Blocked bool // was durably blocked at some quiescent point
+	Pre     any  // model snapshot taken by OnCall at call time
 }
 
 type Task struct {
@@ -103,8 +111,14 @@ type Sched struct {
 	OnQuiescent func()
 	// OnStable is called when no task is enabled, before virtual time advances.
 	OnStable func()
+	// OnEnd is called when the schedule is over (all done / nothing can happen / cap), before draining.
+	OnEnd func()
 	// OnDrain is called once when the run is over (cancel contexts etc.).
 	OnDrain func()
+	// AfterDrain is called after draining (every task finished unless Leftover() > 0).
+	AfterDrain func()
+	// OnCall is called by the scheduler when it releases a task into an operation.
+	OnCall func(t *Task, op *OpRec)
 
 	Switches    int
 	LockWaits   int
@@ -465,11 +479,25 @@ func (s *Sched) release(t *Task) {
 	} else {
 		atomic.AddUint64(&s.progress, 1)
 	}
+	for _, u := range s.tasks {
+		if u != t && u.curOp != nil && !u.curOp.settled {
+			u.curOp.Solo = false
+		}
+	}
 	if t.nextOp != nil && t.kind == kOpStart {
 		op := t.nextOp
 		t.nextOp = nil
 		op.Call = s.Step
 		op.CallT = s.Now()
+		op.Solo = true
+		for _, u := range s.tasks {
+			if u != t && u.MidOp() {
+				op.Solo = false
+			}
+		}
+		if s.OnCall != nil {
+			s.OnCall(t, op)
+		}
 		t.curOp = op
 		s.Ops = append(s.Ops, op)
 		if s.Trace {
@@ -490,6 +518,15 @@ func (s *Sched) release(t *Task) {
 	synctest.Wait()
 	if wasLW && !(t.parked() && t.kind == kLockWait) {
 		atomic.AddUint64(&s.progress, 1) // the lock was obtained
+	}
+	for _, u := range s.tasks {
+		if u.curOp != nil && u.running() {
+			u.curOp.Blocked = true
+			u.curOp.settled = true
+		}
+		if u.retPend != nil {
+			u.retPend.settled = true
+		}
 	}
 	s.drainSig()
 	s.Step++
@@ -562,7 +599,15 @@ func (s *Sched) Run() {
 	synctest.Wait()
 	s.drainSig()
 	s.loop()
+	if s.fail == nil && s.OnEnd != nil {
+		s.OnEnd()
+	}
 	s.drain()
+	if s.fail == nil && s.AfterDrain != nil {
+		s.Activate()
+		s.AfterDrain()
+		s.Deactivate()
+	}
 }
 
 func (s *Sched) loop() {
@@ -665,7 +710,7 @@ func (s *Sched) drain() {
 			if s.allDone() {
 				break
 			}
-			tm := time.NewTimer(30 * time.Minute)
+			tm := time.NewTimer(4 * time.Hour)
 			select {
 			case <-s.sig:
 				tm.Stop()
